@@ -56,3 +56,27 @@ pub use state_machine::ConnectionState;
 pub use term_helpers::nil;
 pub use tokio::net::tcp::OwnedReadHalf;
 pub use types::{Creation, SequenceId};
+
+/// Verification hooks (compiled only with `--cfg edp_rs_verif`): cooperative yield points placed
+/// before the atomic steps of the identifier allocators so that a test scheduler can replay a
+/// given interleaving deterministically. With the cfg off this module does not exist.
+#[cfg(edp_rs_verif)]
+pub mod verif_hooks {
+    use std::sync::OnceLock;
+
+    type Hook = Box<dyn Fn(u32) + Send + Sync>;
+    static HOOK: OnceLock<Hook> = OnceLock::new();
+
+    /// Installs the scheduler callback (once per process).
+    pub fn install(hook: Hook) {
+        let _ = HOOK.set(hook);
+    }
+
+    /// Called before visible step `point`; returns when the installed scheduler lets the calling thread proceed.
+    #[inline(never)]
+    pub fn yield_point(point: u32) {
+        if let Some(h) = HOOK.get() {
+            h(point)
+        }
+    }
+}
